@@ -74,6 +74,31 @@ macro_rules! size_impl { ($n:expr, $Var:ident, $M:ident, $V:ident, $build_r:iden
         if dr != dm { return bad("display-depends-on-layout-or-order", "<row>::Display", dr); }
         if dc != dm { return bad("display-depends-on-layout-or-order", "<col>::Display", dc); }
         if r.row_count() != N || r.col_count() != N || c.row_count() != N || c.col_count() != N { return bad("wrong-dimensions", "::row_count/col_count", String::new()); }
+        if rm::$M::<Sym>::ROW_COUNT != N || rm::$M::<Sym>::COL_COUNT != N || cm::$M::<Sym>::ROW_COUNT != N || cm::$M::<Sym>::COL_COUNT != N { return bad("wrong-dimensions", "::ROW_COUNT/COL_COUNT", String::new()); }
+        if !r.is_packed() || !c.is_packed() { return bad("repr_c-matrix-not-packed", "::is_packed", String::new()); }
+        // raw pointers and mutable slice views: same storage, same order as the shared slice views
+        {
+            let (mut r2, mut c2) = (r.clone(), c.clone());
+            if r2.as_row_ptr() != r2.as_row_slice().as_ptr() || c2.as_col_ptr() != c2.as_col_slice().as_ptr() { return bad("pointer-is-not-the-start-of-the-slice", "::as_row_ptr/as_col_ptr", String::new()); }
+            if r2.as_mut_row_ptr() as *const Sym != r2.as_row_ptr() || c2.as_mut_col_ptr() as *const Sym != c2.as_col_ptr() { return bad("pointer-is-not-the-start-of-the-slice", "::as_mut_row_ptr/as_mut_col_ptr", String::new()); }
+            if r2.as_row_ptr() != &r2 as *const rm::$M<Sym> as *const Sym || c2.as_col_ptr() != &c2 as *const cm::$M<Sym> as *const Sym { return bad("pointer-is-not-the-value's-own-storage", "::as_row_ptr/as_col_ptr", String::new()); }
+            if r2.as_mut_row_slice() != &row_flat[..] { return bad("slice-order-is-not-what-its-name-says", "<row>::as_mut_row_slice", format!("{:?}", r2.as_mut_row_slice())); }
+            if c2.as_mut_col_slice() != &col_flat[..] { return bad("slice-order-is-not-what-its-name-says", "<col>::as_mut_col_slice", format!("{:?}", c2.as_mut_col_slice())); }
+            // a write through the mutable view at flat position k lands in element (k / N, k % N) resp. (k % N, k / N)
+            for k in 0..N * N {
+                let (mut r3, mut c3) = (r.clone(), c.clone());
+                r3.as_mut_row_slice()[k] = Sym(0x7777); c3.as_mut_col_slice()[k] = Sym(0x7777);
+                let (mut wr, mut wc) = (arr, arr);
+                wr[k / N][k % N] = Sym(0x7777); wc[k % N][k / N] = Sym(0x7777);
+                if $dec_r(&r3) != wr { return bad("write-through-mutable-slice-lands-in-another-element", "<row>::as_mut_row_slice", format!("flat index {}", k)); }
+                if $dec_c(&c3) != wc { return bad("write-through-mutable-slice-lands-in-another-element", "<col>::as_mut_col_slice", format!("flat index {}", k)); }
+                // the same write through m[(i,j)] (IndexMut) must give the same matrix in both layouts
+                let (mut r4, mut c4) = (r.clone(), c.clone());
+                r4[(k / N, k % N)] = Sym(0x7777); c4[(k / N, k % N)] = Sym(0x7777);
+                if $dec_r(&r4) != wr { return bad("index_mut-is-not-row-i-col-j", "<row>::index_mut", format!("write at ({},{})", k / N, k % N)); }
+                if $dec_c(&c4) != wr { return bad("index_mut-is-not-row-i-col-j", "<col>::index_mut", format!("write at ({},{})", k / N, k % N)); }
+            }
+        }
         None
     }
     fn $step(depth: u8, abs: &Abs, r: &rm::$M<Sym>, c: &cm::$M<Sym>, a: Act) -> Option<St> {
@@ -176,7 +201,7 @@ fn main() {
     let rep = Report::start("C03", "model_checking");
     let mut lk = json!({});
     rep.section("API-call programs over {transpose, array round trips (straight and crossed), layout swap, size changes, map/map2/apply/as_, diagonal builders, indexed writes, map_rows/map_cols}",
-        "stateright BFS from the three initial states (n=2,3,4; n^2 pairwise distinct symbols built with new(m00,..)) over 25 API-call actions applied to the row-major and the column-major value in lock step, a plain nested-Vec model beside them; in EVERY state: fields of both values = model, m[(i,j)] for all i,j, as_row_slice/as_col_slice order, the slice read with gl_should_transpose, diagonal, Display of both = model rendering; states are merged by value equality of the real matrices (+ model); (a) the 19 permuting/relabelling/resizing actions searched to the fixpoint of the value graph, run twice (counts compared); (b) all 25 actions (adding map2/apply with a partner matrix, diagonal builders, indexed writes) for every program of length <= 5 quick / 7 thorough; non-trivial: all transitions", true, false, |s| {
+        "stateright BFS from the three initial states (n=2,3,4; n^2 pairwise distinct symbols built with new(m00,..)) over 25 API-call actions applied to the row-major and the column-major value in lock step, a plain nested-Vec model beside them; in EVERY state: fields of both values = model, m[(i,j)] for all i,j, as_row_slice/as_col_slice order (shared and mutable views, raw pointers = start of the value's storage, a write at every flat position and through m[(i,j)] at every index lands in the right element), the slice read with gl_should_transpose, diagonal, Display of both = model rendering; states are merged by value equality of the real matrices (+ model); (a) the 19 permuting/relabelling/resizing actions searched to the fixpoint of the value graph, run twice (counts compared); (b) all 25 actions (adding map2/apply with a partner matrix, diagonal builders, indexed writes) for every program of length <= 5 quick / 7 thorough; non-trivial: all transitions", true, false, |s| {
         // the permutation core: actions that only permute / relabel / resize — its value graph is small, so it is searched to the fixpoint
         let core: Vec<Act> = vec![Act::Transposed, Act::TransposeInPlace, Act::RowArrayRT, Act::ColArrayRT, Act::RowArraysRT, Act::ColArraysRT, Act::RowToCol, Act::ColToRow, Act::RowsToCols, Act::ColsToRows,
             Act::SwapLayouts, Act::Shrink3, Act::Shrink2, Act::Grow3, Act::Grow4, Act::Map, Act::AsCast, Act::ReverseRows, Act::ReverseCols];
